@@ -33,6 +33,27 @@ COMPOSITE = {"Query", "Mutation", "Subscription", "Obj", "Obj2", "I", "U", "J", 
 POSSIBLE = {"J": {"Obj"}, "U2": {"Obj2"}, "I": {"Obj", "Obj2"}, "U": {"Obj", "Obj2"}, "Query": {"Query"}, "Mutation": {"Mutation"}, "Subscription": {"Subscription"}, "Obj": {"Obj"}, "Obj2": {"Obj2"}}
 
 
+def install_any(schema):
+    """The custom scalar Any accepts EVERY literal (a JSON-like scalar written in code): leaf values, lists and objects."""
+    from py_gql.utilities import untyped_value_from_ast
+    any_ = schema.get_type("Any")
+    any_._parse_literal = lambda node, variables=None: untyped_value_from_ast(node, variables or None) if not _has_variable(node) else "<with variables>"
+    any_._parse = lambda v: v
+    any_._serialize = lambda v: v
+    return schema
+
+
+def _has_variable(node):
+    from py_gql.lang import ast as A
+    if isinstance(node, A.Variable):
+        return True
+    for attr in ("values", "fields"):
+        for x in getattr(node, attr, None) or []:
+            if _has_variable(getattr(x, "value", x)):
+                return True
+    return False
+
+
 def named(n):
     return {"k": "named", "n": n}
 
@@ -275,7 +296,10 @@ INJECTIONS = ["unknown-field", "leaf-with-selection", "composite-without-selecti
               # operations and fragments have separate name spaces
               "fragment-named-like-operation", "fragment-named-like-operation-unused-variable",
               # literals of a custom scalar: whatever its coercion accepts (here: any leaf literal, bare names included)
-              "custom-scalar-leaf-literals"]
+              "custom-scalar-leaf-literals",
+              # ... and, as the scalar accepts them, list and object literals; what is written INSIDE such a literal is still seen by
+              # the other rules (variables are used / must be defined, input-object keys stay unique where they are input objects)
+              "custom-scalar-structured-literals", "custom-scalar-object-literal-undefined-variable"]
 
 
 def normalise(doc):
@@ -497,6 +521,13 @@ def _inject(doc, label, rng):
         op["sel"] += [field("k", "cs1", [{"name": "j", "value": {"k": "enum", "v": "INFO"}}]), field("k", "cs2", [{"name": "j", "value": {"k": "int", "v": "1"}}]),
                       field("k", "cs3", [{"name": "js", "value": {"k": "list", "vs": [{"k": "enum", "v": "WARN"}, {"k": "bool", "v": "true"}, {"k": "null"}]}}]),
                       field("k", "cs4", [{"name": "j", "value": {"k": "var", "n": "anyv"}}])]
+    elif label == "custom-scalar-structured-literals":
+        op["vars"].append(vardef("csv"))
+        op["sel"] += [field("k", "cs5", [{"name": "j", "value": {"k": "obj", "fs": [{"key": "a", "val": {"k": "var", "n": "csv"}},
+                                                                                       {"key": "b", "val": {"k": "list", "vs": [{"k": "int", "v": "1"}]}}]}}]),
+                      field("k", "cs6", [{"name": "j", "value": {"k": "list", "vs": [{"k": "int", "v": "1"}, {"k": "int", "v": "2"}]}}])]
+    elif label == "custom-scalar-object-literal-undefined-variable":
+        op["sel"].append(field("k", "cs7", [{"name": "j", "value": {"k": "obj", "fs": [{"key": "a", "val": {"k": "var", "n": "csundef"}}]}}]))
     elif label == "input-var-default-object":
         op["vars"].append(vardef("ivd", named("In"), {"k": "obj", "fs": [{"key": "y", "val": {"k": "int", "v": "1"}}]}))
         op["sel"].append(field("f", "ivdf", [{"name": "in", "value": {"k": "var", "n": "ivd"}}]))
